@@ -106,9 +106,34 @@ func (s *QueryPlanStep) setQuery() *QueryPlanStep {
 	return s
 }
 
+func getDirectivesVariablesList(directives ast.DirectiveList) []string {
+	var args []string
+	for _, d := range directives {
+		for _, a := range d.Arguments {
+			if a.Value != nil && a.Value.Kind == ast.Variable {
+				args = append(args, a.Value.Raw)
+			}
+		}
+	}
+	return args
+}
+
+func getFragmentsDirectivesVariablesList(s ast.SelectionSet) []string {
+	var args []string
+	for _, selection := range s {
+		if fragment, ok := selection.(*ast.InlineFragment); ok {
+			args = append(args, getDirectivesVariablesList(fragment.Directives)...)
+			args = append(args, getFragmentsDirectivesVariablesList(fragment.SelectionSet)...)
+		}
+	}
+	return args
+}
+
 func getVariablesList(s ast.SelectionSet) []string {
 	var args []string
+	args = append(args, getFragmentsDirectivesVariablesList(s)...)
 	for _, f := range common.SelectionSetToFields(s, nil) {
+		args = append(args, getDirectivesVariablesList(f.Directives)...)
 		for _, a := range f.Arguments {
 			if len(a.Value.Children) > 0 {
 				args = append(args, getArgumentListChildrenVariablesList(a.Value.Children)...)
